@@ -235,3 +235,33 @@ theorem C07_trips_perm_invariant (ext : Ext) (es es' : List (Entity × Bool)) (h
   cases e2; rfl
 
 end Gtfs.Rt
+
+namespace Gtfs.Rt
+
+/-- the pre-pass of "no extension" and of the NYCT trips extension treats each entity on its own, so
+    a permutation of the entities is a permutation of the pre-processed entities (the NYCT alerts
+    extension groups elevator alerts by first occurrence: alerts keep their relative feed order and
+    are not part of this statement) -/
+theorem prepass_perm (ext : Ext) (m m' : Msg) (hp : m'.entities.Perm m.entities) (ht : m'.timestamp = m.timestamp)
+    (hext : ∀ o, ext ≠ .alerts o) : (prepass ext m').Perm (prepass ext m) := by
+  unfold prepass
+  cases ext with
+  | noExt => exact hp.map _
+  | trips o => simp only [ht]; exact hp.map _
+  | alerts o => exact absurd rfl (hext o)
+
+/-- **C07 (order independence of Trips).** For a message without conflicting duplicates, any
+    permutation of its entities yields the same Trips: the same identifiers in the same (sorted)
+    order, each with the same data. -/
+theorem C07_parse_trips_perm_invariant (ext : Ext) (m m' : Msg) (hp : m'.entities.Perm m.entities)
+    (ht : m'.timestamp = m.timestamp) (hext : ∀ o, ext ≠ .alerts o)
+    (hcf : ConflictFreeTrips ext (prepass ext m)) :
+    (parse ext m').trips.map (·.data) = (parse ext m).trips.map (·.data) := by
+  unfold parse finish
+  simp only [List.map_map]
+  have := C07_trips_perm_invariant ext (prepass ext m) (prepass ext m') (prepass_perm ext m m' hp ht hext) hcf
+  have hcomp : ∀ acc : Acc, ((fun (t : TripOut) => t.data) ∘ fun (p : TripID × TripData) => ({ data := p.2, vehicle := tripVehicle acc p.1 } : TripOut))
+      = fun p => p.2 := by intro acc; rfl
+  rw [hcomp, hcomp, this]
+
+end Gtfs.Rt
